@@ -144,6 +144,26 @@ def compare_sens(defn, m, out, rng, npoints=2):
     return mism
 
 
+def _touch_sens(m, _k):
+    """evaluate every sensitivity evaluator of a model under construction once (results discarded)"""
+    ns, np_ = m.num_state, m.num_param
+    try:
+        if np_ > 0:
+            m.parameters = [0.75] * np_
+    except Exception:
+        return
+    zp = np.linspace(0.5, 1.5, ns + ns * np_)
+    ziv = np.linspace(0.5, 1.5, ns + ns * np_ + ns * ns)
+    for fn, z in ((lambda z: m.ode_and_sensitivity(z, 0.5), zp), (lambda z: m.ode_and_sensitivity(z, 0.5, by_state=True), zp),
+                  (lambda z: m.ode_and_sensitivity_jacobian(z, 0.5), zp),
+                  (lambda z: m.ode_and_sensitivity_jacobian(z, 0.5, by_state=True), zp),
+                  (lambda z: m.ode_and_sensitivityIV(z, 0.5), ziv), (lambda z: m.ode_and_sensitivityIV_jacobian(z, 0.5), ziv)):
+        try:
+            fn(z.copy())
+        except Exception:
+            pass
+
+
 def sens_chunk_worker(args):
     seed, ids, opts = args
     workdir = tlc.scratch_dir("pygom_os_")
@@ -164,8 +184,11 @@ def sens_chunk_worker(args):
                 p["how"] = rng.choice(["ctor", "ctor", "add"])
             rec = {"id": i, "defn": defn, "build_error": None}
             try:
+                # every other model has its sensitivity evaluators used BETWEEN the add_* calls that complete it (the
+                # values are thrown away): what is compared afterwards must belong to the completed definition
                 m, events, odes = build.build(defn, rng=rng, style=rng.randrange(6),
-                                              backend=("cython" if opts.get("cython_every") and i % opts["cython_every"] == 0 else "lambda"))
+                                              backend=("cython" if opts.get("cython_every") and i % opts["cython_every"] == 0 else "lambda"),
+                                              on_step=(_touch_sens if i % 2 == 0 else None))
                 rec.update(m=m, events=events, odes=odes)
             except Exception as ex:
                 rec["build_error"] = "".join(traceback.format_exception_only(type(ex), ex))[:400]
